@@ -154,6 +154,9 @@ type UDPConn struct {
 	rdlTimer  *time.Timer
 	CloseCnt  int
 	ReadCalls int
+	// CloseNoticeDelay delays the error a blocked ReadFrom returns after Close (set before Close).
+	CloseNoticeDelay time.Duration
+	closeNoticeAt    time.Time
 
 	// fault injection (guarded by mu)
 	readErr   error                                           // returned by the next ReadFrom (once)
@@ -232,10 +235,10 @@ func (c *UDPConn) ReadFrom(b []byte) (int, net.Addr, error) {
 
 			return 0, nil, err
 		}
-		if c.closed {
+		if c.closed && !time.Now().Before(c.closeNoticeAt) {
 			return 0, nil, net.ErrClosed
 		}
-		if len(c.q) > 0 {
+		if len(c.q) > 0 && !c.closed {
 			d := c.q[0]
 			c.q = c.q[1:]
 			n := copy(b, d.Data)
@@ -356,7 +359,18 @@ func (c *UDPConn) Close() error {
 	if c.rdlTimer != nil {
 		c.rdlTimer.Stop()
 	}
-	c.cond.Broadcast()
+	if c.CloseNoticeDelay > 0 {
+		// a reader blocked in ReadFrom learns about the close only after the delay, like a read loop
+		// that is scheduled late
+		c.closeNoticeAt = time.Now().Add(c.CloseNoticeDelay)
+		time.AfterFunc(c.CloseNoticeDelay, func() {
+			c.mu.Lock()
+			c.cond.Broadcast()
+			c.mu.Unlock()
+		})
+	} else {
+		c.cond.Broadcast()
+	}
 	c.mu.Unlock()
 
 	c.net.mu.Lock()
